@@ -1,7 +1,7 @@
 """C17 - WebSocket sessions follow the ASGI state machine and report misuse and errors."""
 PROP = 'C17'
-LEAN_MODULES = ['FalconModel.WsProofs', 'FalconModel.WsPayloadProofs']
-DRIVERS = ['wsdriver', 'wpdriver']
+LEAN_MODULES = ['FalconModel.WsProofs', 'FalconModel.WsPayloadProofs', 'FalconModel.WsAcceptProofs']
+DRIVERS = ['wsdriver', 'wpdriver', 'wadriver']
 THEOREMS = [
     # legality of everything the server accepts, for every script / inbox / fault / flag sequence
     'Ws.emitted_trace_legal', 'Ws.emitted_trace_legal_mw',
@@ -34,6 +34,13 @@ THEOREMS = [
     'Wp.proj_cleanup', 'Wp.cleanup_wf', 'Wp.proj_handleException', 'Wp.proj_handle', 'Wp.projLog_length', 'Wp.projLog_dropLast',
     'Wp.ScriptOk.append', 'Wp.ScriptOk.raise', 'Wp.proj_rejectFirst', 'Wp.okEvents_proj',
     'Wp.emitted_trace_legal', 'Wp.closed_unless_escaped', 'Wp.reason_only_if_supported',
+    # an abandoned (parked, then cancelled) receive_* leaves no trace in the session
+    'Ws.recvAbandoned_noop', 'Ws.recvAbandoned_ok', 'Ws.recvAbandoned_wrong_state', 'Ws.abandoned_receive_session_continues', 'Ws.recvAbandoned_inv', 'Ws.recvAbandoned_sane',
+    'Wp.recvAbandoned_noop', 'Wp.proj_recvAbandoned',
+    # the arguments of accept() (WsAccept.lean): the event is legal or the documented error is raised
+    'Wa.accept_event_legal', 'Wa.accept_forbidden_header_raises', 'Wa.accept_event_only_if_checked', 'Wa.accept_is_op',
+    'Wa.process_ok', 'Wa.forbidden_rejected', 'Wa.forbidden_rejected_valueError', 'Wa.every_spelling_forbidden', 'Wa.every_spelling_rejected',
+    'Wa.lowerStr_applyCase', 'Wa.lowerCp_not_upper', 'Wa.encodeAscii_ok', 'Wa.encodeItem_ok', 'Wa.encodeAll_ok', 'Wa.lowerStr_lowerAscii',
 ]
 STATEMENTS = {
     'Ws.emitted_trace_legal': 'for every configuration (spec version, close-reason table, error_close_code, custom error handler script), responder script with per-op catch flags, every sequence of observed disconnect-flag values, inbox, and every position and kind of a failing server send: the events the server accepted form a word of connecting -accept-> open -send*-> open -close-> done (connecting -close-> done is the 403 denial), i.e. <= 1 accept, data only between accept and close, <= 1 close, nothing after close',
@@ -62,9 +69,22 @@ STATEMENTS = {
     'Wp.harness_inverse': 'the handlers the correspondence runs with (stock JSONHandlerWS as modelled for C12, and the msgpack-like binary stub) satisfy the inverse law at every well-formed JSON document, so media_roundtrip is not vacuous',
     'Wp.project_to_Ws': 'refinement: forgetting the payloads maps the whole payload-carrying session (_handle_websocket with middleware scripts, error handlers, custom handler, every routing outcome) to the session of the kind-level model Ws on the projected inputs - same final state and flags, same sequence of send calls (kinds, codes, which raised), same per-op outcomes, same escaped exception; so the 57 Ws theorems are statements about the payload model (Wp.emitted_trace_legal, Wp.closed_unless_escaped, Wp.reason_only_if_supported are transferred explicitly). Hypotheses: well-formed client events, handlers of the stock shape, scripts serialize only serializable documents',
     'Wp.send_media_serialize_error': 'a serialize that raises: the handler\'s exception reaches the caller, nothing is handed to the server, the socket is unchanged, whatever the disconnect flag says (the event dict is built before _send runs)',
+    'Ws.recvAbandoned_noop': 'a receive_* that parked and was cancelled (asyncio.wait_for timeout, task cancellation) leaves the socket object exactly as it was - state, close code, everything sent, the pump, the client events not yet consumed - whatever the state',
+    'Ws.abandoned_receive_session_continues': 'for every script around it (any catch behaviour, any observed flags), on an accepted socket with a running pump: the rest of the script runs from the same socket against the same client events as if the abandoned receive had never been issued - the next receive_* gets the next client message, close(code) sends the responder\'s own code; the only difference is its ok entry in the log',
+    'Ws.recvAbandoned_wrong_state': 'before accept / after close or loss / with a stopped pump the abandoned receive raises at once what the plain receive raises',
+    'Wp.recvAbandoned_noop': 'the same for the payload-carrying model: nothing is consumed, so the payloads still arrive in order',
+    'Wa.accept_event_legal': 'for every socket, observed flag, subprotocol argument (None / str / not a str) and headers argument (None, list / tuple / dict / generator of items that are pairs of str / bytes / other objects, or no pairs at all): IF accept() hands an accept event to the server, then it carries a subprotocol iff one was given; its headers key is absent iff the argument was falsy, and otherwise the server supports accept headers and the list is exactly the items in order, each name the lower-cased spelling in ASCII bytes without upper-case letters, each value unchanged ASCII bytes, and NO name is sec-websocket-protocol',
+    'Wa.accept_forbidden_header_raises': 'on a socket in the handshake state with a connected client, a str (or no) subprotocol and a server supporting accept headers: a headers argument of well-formed items one of which is named sec-websocket-protocol in ANY letter case (lowerStr name = the forbidden name) raises ValueError; nothing is sent, the socket is unchanged',
+    'Wa.every_spelling_forbidden': 'every one of the 2^20 letter-case spellings of sec-websocket-protocol lower-cases to the forbidden name (applyCase with an arbitrary mask)',
+    'Wa.every_spelling_rejected': 'a well-formed header list containing any such spelling at any position is refused with ValueError',
+    'Wa.accept_event_only_if_checked': 'an accept event reaches the server only from the handshake state, with a str/absent subprotocol, and - for a truthy headers argument - only if the server supports headers and the processing of the argument raised nothing',
+    'Wa.accept_is_op': 'accept() with concrete arguments is by definition the operation Wa.toOp of the session model, so every Ws / Wp session theorem covers responders calling accept with arbitrary arguments',
+    'Wa.process_ok': 'whenever the processing of a headers argument returns a list: one entry per item, in order, names lower-cased ASCII without upper-case letters, values unchanged, none named sec-websocket-protocol',
+    'Wa.forbidden_rejected': 'if any item is named sec-websocket-protocol in some letter case (incl. the KELVIN SIGN spelling str.lower() maps to it) the processing raises',
     'Ws.send_spec': '_send either hands exactly the event to the server and keeps the state (which was not CLOSED), or hands nothing that the server accepts, raises, and keeps the state or moves it to CLOSED',
 }
 TRUSTED = [
+    'asyncio.wait_for / Task.cancel deliver CancelledError at the await the operation is parked on; the event loop clock is replaced by a virtual clock for the whole check (loop.time), so timeouts fire exactly when the harness advances it',
     'the scripted ASGI server of the harness (receive/send callables written from the ASGI WebSocket spec, not falcon.testing) and its fault injection',
     '"the session did not terminate" is decided by 4000 turns of the event loop without the application task finishing (no wall clock)',
     'C18 (the buffered receiver hands events out FIFO): the model reads the client script in order in both queue modes',
@@ -75,7 +95,13 @@ ASSUMPTIONS = [
     'raise an exception of one of the framework\'s own classes (WebSocketDisconnected with/without code or a subclass of it, OperationNotAllowed, PayloadTypeError, ValueError incl. the invalid-close-code message, OSError, '
     'AssertionError) by hand or by a failing operation on a SECOND connection\'s WebSocket (relay) while the handled connection is in whatever state the script left it',
     'a custom error handler that returns without closing leaves the socket to the ASGI server (application responsibility); the close-always rule is checked for the default handlers and for custom handlers that close or re-raise HTTPError/HTTPStatus',
-    'send_text/send_data argument type checks (TypeError) and accept-header validation (sec-websocket-protocol) are not part of the model',
+    'send_text/send_data argument type checks (TypeError) are not part of the model',
+    'accept() arguments: subprotocol None / str / another object; headers None, a list / tuple / list of lists / dict / generator of items; an item that is not a pair of ASCII str (bytes, None, int, non-ASCII, wrong length) '
+    'is outside the documented types: the oracle demands an exception (any class) and nothing sent; the model pins the class CPython raises (ValueError for unpacking / UnicodeEncodeError, else "other"). '
+    'A name that only str.lower() turns into sec-websocket-protocol (KELVIN SIGN) is non-ASCII, hence in that class',
+    'an abandoned operation: a receive_* (or, at most once per session, a send_text / send_data whose server call is in flight) run under asyncio.wait_for(op, 5.0) or as a task of its own; it counts as waiting when it has not '
+    'completed after 30 turns of the event loop (an available event reaches a receive in < 10); then the timeout fires (virtual loop clock, advanced by the harness) resp. the task is cancelled, and the responder goes on. '
+    'An idle client (inbox marker w) resumes once a plain receive_* has been waiting for 30 turns. The responder never has two receives in progress at once',
     'payload model: a str payload is a list of Unicode scalar values (no lone surrogates), bytes(payload) of bytes/bytearray/memoryview is the payload; the media handlers are arbitrary functions that may raise (theorems), '
     'instantiated in the driver with the C12 JSON model (no floats) for JSONHandlerWS and a stub "00 4A + UTF-8 JSON" binary handler / MissingDependencyHandler (msgpack is not installed)',
 ]
@@ -92,8 +118,19 @@ RULE = ('random sessions: responder scripts of 0..8 ops x client scripts of 0..6
         'payload model covers: client events with no payload (no key / None keys) or two payloads, bytes the stub rejects (bad magic, bad UTF-8, bad JSON), documents the serializer '
         'rejects, send_media(BINARY) without msgpack; '
         'plus every script of length <= 2 (quick) / <= 3 (thorough) over 14 ops (incl. an uncaught foreign WebSocketDisconnected) x 3 client scripts x fault index x queue 0/4; '
+        'ARGUMENTS of accept(): op Ag in responder / middleware / handler scripts and 6000 (60000) calls on directly constructed sockets (handshake / accepted / closed, spec 2.0-2.4, failing server send): subprotocol None / str incl. empty / '
+        'int / bytes, positional or keyword; headers None / empty list, tuple, dict / empty generator / 1-4 items as list, tuple, list of lists, dict, generator; names: sec-websocket-protocol (22 %) and 15 names one character away from it (20 %) in '
+        'lower, UPPER, Canonical-Dash, exactly-one-upper-case-letter and random per-letter case, the KELVIN SIGN spelling, non-ASCII, bytes, None / int, plain names; values str incl. empty, bytes, non-ASCII, None / int; items of length 0, 1, 3, non-iterable; '
+        'plus directed: the forbidden name in all-lower, all-upper, canonical and each of its 20 single-upper-case-letter spellings, and the near-miss names, x 5 containers x with/without subprotocol x first/second item x spec 2.0-2.4. '
+        'ABANDONED operations: ops Kt / Kd / Km (receive_text / receive_data / receive_media under asyncio.wait_for with a timeout that fires, or cancelled as a task, while really waiting) and Ks / Kb (send cancelled while the server call is in flight) '
+        'followed by further receives, sends, closes, against clients that are idle at marked points (inbox marker w), max_receive_queue 0 / 1 / 4: 3000 (24000) random sessions, every continuation of <= 2 ops over 7 ops after each of 4 abandoned receives x 3 queue sizes x 3 client scripts, '
+        'and K ops / idle points sprinkled into the random sessions (with middleware, faults, custom handlers). '
         'non-trivial = at least one event was handed to the server\'s send; distinct = distinct driver line (configuration + scripts + observed flags)')
-PARTIAL = ('the disconnect flag is an input of the model (observed on the real object and fed to the driver), its timing is C18\'s subject; '
+PARTIAL = ('whether an abandonable receive had to wait (was parked and cancelled) is, like the disconnect flag, an observation of the run fed to the model (the waiter bookkeeping of a cancelled receive is C18\'s Wb / Wu models); the independent oracle decides '
+           'from the client script alone whether it must have waited. A send cancelled in flight is not a constructor of the model: the correspondence represents it as a server send raising an untranslated exception which the script catches '
+           '(fail=<that call> fault=other) - both leave the socket untouched because _send handles only Exception; at most one per session. Wa pins CPython\'s exception classes for undocumented argument types via a table in the model (str.lower of non-ASCII code points: '
+           'U+212A is the only one that becomes ASCII - checked over all code points on every run). '
+           'the disconnect flag is an input of the model (observed on the real object and fed to the driver), its timing is C18\'s subject; '
            'received_payloads_in_order_unchanged_buffered composes with C18\'s trace-inclusion model for sessions without stop() (a close() stops the pump: the events it held are dropped by design); '
            'project_to_Ws is stated for well-formed client events and stock-shaped handlers (the kind-level model has no kind for an event with no or two payloads; the payload model covers them directly)')
 JOBS = {'quick': 4, 'thorough': 16}
@@ -103,8 +140,128 @@ CODES = ['n', 'n', '1000', '3001', '4999', '1011', '999', '1005', '1500', 'x', '
 # op E<class>: the script fails with an exception of one of the framework's OWN classes that does not stem from the handled connection
 # (raised by hand, or by an operation on another connection's WebSocket): the exception class and the state of the handled socket are independent
 FOREIGN = ['Ewsd1001', 'Ewsd1001', 'Ewsdn', 'Ewsd4000', 'Ewsd0', 'Ewsd1000', 'Eona', 'Epte', 'Evei', 'Eveo', 'Eose', 'Eae']
-OPS = (['A000'] * 4 + ['A100', 'A010', 'A110', 'A001'] + ['C' + c for c in CODES] +
-       ['St', 'St', 'St', 'Sb', 'Sb', 'Rt', 'Rt', 'Rd', 'Rm', 'Rm', 'H403', 'H404', 'T204', 'X', 'B', 'B'] + FOREIGN[:8])
+OPS = (['A000'] * 4 + ['A100', 'A010', 'A110', 'A001'] + ['Ag'] * 6 + ['C' + c for c in CODES] +
+       ['St', 'St', 'St', 'Sb', 'Sb', 'Rt', 'Rt', 'Rd', 'Rm', 'Rm', 'H403', 'H404', 'T204', 'X', 'B', 'B'] + FOREIGN[:8] + ['Kt', 'Kd', 'Km'])
+# op Ag: accept() with generated ARGUMENTS (step['acc']); ops Kt / Kd / Km: a receive_* the responder ABANDONS if it has to wait (asyncio.wait_for
+# whose timeout fires / task cancellation), Ks / Kb: a send_text / send_data cancelled while the server's send is in flight; inbox token `w`: the client
+# is idle (sends nothing) until the responder really waits in a plain receive_*
+T_PARK = 30        # loop turns after which an operation that has not completed is parked (an available event arrives within < 10 turns)
+G_WAIT = 30        # loop turns a plain receive must have been waiting before the idle client resumes
+FORBIDDEN = 'sec-websocket-protocol'
+NEAR_MISS = ['sec-websocket-protoco', 'sec-websocket-protocols', 'sec-websocket-protocol2', 'ec-websocket-protocol', 'xsec-websocket-protocol', 'sec_websocket-protocol',
+             'sec-websocket_protocol', 'secwebsocket-protocol', 'sec-websocket-protokol', 'sec-websocket-protocal', 'sec-websocket-accept', 'sec-websocket-extensions',
+             'sec-websocket-version', 'sec-websocket-protocol-x', 'sec-websocket--protocol']
+PLAIN_HDR = ['x-case', 'x-other', 'set-cookie', 'server', 'x-a', 'content-type']
+
+
+def spell(rnd, name):
+    """a header name in one of the letter cases an application would write: lower, UPPER, Canonical-Dash-Case, or per-letter random"""
+    k = rnd.randrange(6)
+    if k == 0: return name
+    if k == 1: return name.upper()
+    if k == 2: return {'sec-websocket-protocol': 'Sec-WebSocket-Protocol'}.get(name, '-'.join(w.capitalize() for w in name.split('-')))
+    if k == 3:      # exactly one upper-case letter
+        idx = [i for i, c in enumerate(name) if c.isalpha()]
+        i = rnd.choice(idx) if idx else 0
+        return name[:i] + name[i:i + 1].upper() + name[i + 1:]
+    return ''.join(c.upper() if rnd.random() < 0.5 else c for c in name)
+
+
+def gen_accept_args(rnd):
+    """the arguments of accept(): subprotocol None / str / not a str; headers None / empty / a list, tuple, list of lists, dict or generator of
+    (name, value) items with names in every letter case, incl. the forbidden sec-websocket-protocol, names one character away from it, a name that
+    only str.lower() turns into it (KELVIN SIGN), non-ASCII names / values, bytes names / values, items that are no pairs"""
+    sub = rnd.choice([None] * 5 + ['chat', 'chat', 'other', '', 7, b'chat'])
+    r = rnd.random()
+    if r < 0.2: return {'sub': sub, 'container': None, 'items': []}
+    if r < 0.25: return {'sub': sub, 'container': rnd.choice(['list', 'tuple', 'dict']), 'items': []}
+    if r < 0.3: return {'sub': sub, 'container': 'gen', 'items': []}
+    items = []
+    for _ in range(rnd.choice([1, 1, 2, 2, 3, 4])):
+        x = rnd.random()
+        if x < 0.22: name = spell(rnd, FORBIDDEN)
+        elif x < 0.42: name = spell(rnd, rnd.choice(NEAR_MISS))
+        elif x < 0.45: name = rnd.choice(['Sec-WebSoc\u212aet-Protocol', 'sec-websoc\u212aet-protocol'])      # KELVIN SIGN lower-cases to k
+        elif x < 0.48: name = rnd.choice(['x-\xe9', 'sec-websocket-protoc\xf6l', 'X-\u0130', '\u017fec-websocket-protocol'])
+        elif x < 0.51: name = spell(rnd, rnd.choice([FORBIDDEN, 'x-bytes'])).encode()
+        elif x < 0.52: name = rnd.choice([5, None])
+        else: name = spell(rnd, rnd.choice(PLAIN_HDR))
+        y = rnd.random()
+        value = rnd.choice(['v', 'chat', '', 'a b', 'W']) if y < 0.9 else (b'v' if y < 0.94 else ('caf\xe9' if y < 0.97 else rnd.choice([5, None])))
+        z = rnd.random()
+        items.append((name, value) if z < 0.95 else rnd.choice([(name,), (name, value, 'x'), 5, ()]))
+    container = rnd.choice(['list', 'list', 'tuple', 'lists', 'dict', 'dict', 'gen', 'gen'])
+    if container == 'dict':     # a dict cannot hold malformed items or unhashable / duplicate names
+        d = {}
+        for it in items:
+            if isinstance(it, tuple) and len(it) == 2:
+                d[it[0]] = it[1]
+        items = list(d.items())
+    return {'sub': sub, 'container': container, 'items': items}
+
+
+def build_headers(acc):
+    """the Python object handed to accept(headers=...)"""
+    c, items = acc['container'], acc['items']
+    if c is None: return None
+    if c == 'list': return list(items)
+    if c == 'tuple': return tuple(items)
+    if c == 'lists': return [list(it) if isinstance(it, tuple) else it for it in items]
+    if c == 'dict': return dict(items)
+    return (it for it in items)
+
+
+def headers_truthy(acc):
+    return acc['container'] == 'gen' or (acc['container'] is not None and bool(acc['items']))
+
+
+def acc_tok(acc):
+    """the accept-argument token of the drivers (lean/FalconModel/FalconModel/WsAcceptIO.lean)"""
+    def val(v):
+        if isinstance(v, str): return 's' + '.'.join('%x' % ord(c) for c in v)
+        if isinstance(v, (bytes, bytearray)): return 'b' + '.'.join('%x' % b for b in v)
+        return 'o'
+
+    def item(it):
+        if isinstance(it, (tuple, list)):
+            return 'p' + val(it[0]) + '/' + val(it[1]) if len(it) == 2 else 'w'
+        return 'i'
+    sub = 'n' if acc['sub'] is None else ('s' if isinstance(acc['sub'], str) else 'x')
+    h = 'N' if acc['container'] is None else ('G' if acc['container'] == 'gen' else 'L') + '_'.join(item(it) for it in acc['items'])
+    return 'Ag%s~%s' % (sub, h)
+
+
+def accept_expectation(acc, ver):
+    """What the documentation of accept() and the ASGI spec say about a call with these arguments on a socket in the handshake state whose client is
+    connected: ('VEO', None) the documented ValueError (subprotocol not a str; a header named sec-websocket-protocol in whatever letter case);
+    ('ONA', None) headers given to a server whose spec version has none; ('RAISES', None) arguments outside the documented types (items that are no
+    pairs, names / values that are not ASCII str): any exception, nothing sent; ('ok', event) exactly this accept event."""
+    sub = acc['sub']
+    if sub is not None and not isinstance(sub, str): return 'VEO', None
+    ev = {'type': 'websocket.accept'}
+    if sub is not None: ev['subprotocol'] = sub
+    if not headers_truthy(acc): return 'ok', ev
+    if ver < (2, 1): return 'ONA', None
+    for it in acc['items']:
+        if not (isinstance(it, (tuple, list)) and len(it) == 2 and all(isinstance(x, str) and x.isascii() for x in it)):
+            return 'RAISES', None
+    if any(n.lower() == FORBIDDEN for n, _ in acc['items']): return 'VEO', None
+    ev['headers'] = [(n.lower().encode('ascii'), v.encode('ascii')) for n, v in acc['items']]
+    return 'ok', ev
+
+
+def accept_event_illegal(m, ver):
+    """ASGI spec, websocket.accept: subprotocol a str or None; headers (spec >= 2.1) an iterable of [name, value] two-item iterables of byte strings,
+    names lower-cased, and it must not include a header named sec-websocket-protocol"""
+    if 'subprotocol' in m and m['subprotocol'] is not None and not isinstance(m['subprotocol'], str): return f"subprotocol {m['subprotocol']!r} is not a str"
+    if 'headers' not in m: return None
+    if m['headers'] and ver < (2, 1): return 'accept headers sent to a spec-2.0 server'
+    for h in m['headers']:
+        if not (isinstance(h, (tuple, list)) and len(h) == 2 and isinstance(h[0], bytes) and isinstance(h[1], bytes)): return f'header entry {h!r} is not a pair of byte strings'
+        if h[0] != h[0].lower(): return f'header name {h[0]!r} is not lower-case'
+        if h[0] == FORBIDDEN.encode(): return f"the accept event carries the header {h[0]!r}: {h[1]!r} (forbidden; 'subprotocol' is the only way to select one)"
+    return None
+ABANDON_OPS = ['Kt', 'Kt', 'Kt', 'Kd', 'Km', 'Rt', 'Rt', 'Rd', 'Rm', 'St', 'Sb', 'Cn', 'C3001', 'C1001', 'Ks', 'Kb']
 SMALL_OPS = ['A000', 'A100', 'Cn', 'C3001', 'C999', 'St', 'Sb', 'Rt', 'Rd', 'Rm', 'H403', 'X', 'B', 'Ewsd1001']
 
 
@@ -181,12 +338,13 @@ def default_event(tok, k):
     if tok == 't0': return {'type': 'websocket.receive', 'text': f'msg{k}'}
     if tok == 'b': return {'type': 'websocket.receive', 'bytes': b'\x81\xa1i' + bytes([k])}
     if tok == 'dn': return {'type': 'websocket.disconnect'}
+    if tok == 'w': return {'type': 'idle'}        # not an event: the client sends nothing until the responder really waits in a plain receive
     return {'type': 'websocket.disconnect', 'code': int(tok[1:])}
 
 
 def gen_event(rnd, tok, binh):
     """a client event of the kind `tok` with a random payload; the key of the other payload type is absent or None"""
-    if tok[0] == 'd':
+    if tok[0] == 'd' or tok == 'w':
         return default_event(tok, 0)
     ev = {'type': 'websocket.receive'}
     other = rnd.choice(['absent', 'absent', 'none'])
@@ -234,6 +392,7 @@ def gen_random(rnd):
             return 1 if x < catch_p - 0.1 else (2 if x < catch_p + 0.03 else 0)
         out = [{'tok': rnd.choice(pool), 'catch': lvl(), 'var': rnd.randrange(4), 'pay': gen_pay(rnd)} for _ in range(n)]
         for st in out:
+            if st['tok'] == 'Ag': st['acc'] = gen_accept_args(rnd)
             if st['tok'][0] == 'E':
                 if rnd.random() < 0.25: st['tok'] = rnd.choice(FOREIGN)
                 if rnd.random() < 0.4: st['catch'] = 0        # nobody expects a "disconnected" error on a connected socket
@@ -242,7 +401,13 @@ def gen_random(rnd):
     script = steps(rnd.randint(0, 8))
     if script and rnd.random() < 0.6:
         script[0] = {'tok': 'A000', 'catch': 1, 'var': 0, 'pay': gen_pay(rnd)}
+        if rnd.random() < 0.5:
+            script[0] = {'tok': 'Ag', 'catch': rnd.choice([1, 1, 2]), 'var': 0, 'pay': gen_pay(rnd), 'acc': gen_accept_args(rnd)}
+            if rnd.random() < 0.7: script.insert(1, {'tok': 'A000', 'catch': 1, 'var': 0, 'pay': gen_pay(rnd)})      # the responder accepts properly after a refused call
     inbox = [rnd.choice(['t1', 't0', 'b', 't1', 'b']) for _ in range(rnd.choice([0, 1, 2, 3, 4, 6]))]
+    if any(st['tok'][0] == 'K' for st in script):
+        for _ in range(rnd.choice([1, 1, 2])):
+            inbox.insert(rnd.randrange(len(inbox) + 1), 'w')
     starve = 'late'
     if q and rnd.random() < 0.4:
         inbox = inbox[:rnd.choice([0, 0, 1, 2])] + [rnd.choice(DISC)]     # an early disconnect: the pump sets the flag while the script runs
@@ -295,6 +460,54 @@ def gen_payload_session(rnd):
     }
 
 
+def gen_abandon_session(rnd):
+    """responders that ABANDON operations: accept, then <= 9 ops over abandoned receives (Kt / Kd / Km), plain receives, sends, closes and at most one
+    send cancelled in flight (Ks / Kb), against a client that is idle at the marked points (`w`) - so the abandoned receive really waits - in
+    unbuffered (0) and buffered (1, 4) mode"""
+    q = rnd.choice([0, 1, 4, 4])
+    binh = rnd.random() < 0.5
+    inbox = []
+    for _ in range(rnd.choice([1, 2, 3, 4, 6])):
+        inbox.append(rnd.choice(['t1', 't1', 't0', 'b', 'w', 'w', 'w']))
+    if 'w' not in inbox: inbox.insert(rnd.randrange(len(inbox) + 1), 'w')
+    inbox.append(rnd.choice(DISC))
+    first = {'tok': 'A000', 'catch': 1, 'var': 0, 'pay': gen_pay(rnd)}
+    if rnd.random() < 0.3:
+        first = {'tok': 'Ag', 'catch': 1, 'var': 0, 'pay': gen_pay(rnd), 'acc': {'sub': rnd.choice([None, 'chat']), 'container': rnd.choice([None, 'list', 'dict', 'gen']),
+                                                                                  'items': [(spell(rnd, 'x-case'), 'v')]}}
+    script = [first]; cancelled_send = False
+    for _ in range(rnd.randint(1, 9)):
+        tok = rnd.choice(ABANDON_OPS)
+        if tok in ('Ks', 'Kb'):
+            if cancelled_send: tok = 'Kt'
+            cancelled_send = True
+        script.append({'tok': tok, 'catch': rnd.choice([1, 1, 1, 2, 0]), 'var': rnd.randrange(4), 'pay': gen_pay(rnd)})
+    return {
+        'ver': rnd.choice(['2.0', '2.1', '2.3', '2.4']), 'q': q, 'first': 1, 'route': 'r', 'mwreq': [], 'mwres': [], 'mw_present': False,
+        'script': script, 'custom': None, 'inbox': inbox, 'starve': 'late',
+        'events': [gen_event(rnd, t, binh) for t in inbox], 'wp_only': False,
+        'fail': None, 'fault': 'other', 'err': rnd.choice([1011, 1011, 4000]), 'binh': binh, 'yields': rnd.randrange(1 << 30),
+    }
+
+
+def gen_abandon_directed():
+    """accept, one abandoned receive (text / data / media x wait_for timeout / task cancellation), then every continuation of <= 2 ops over 7 ops,
+    x queue 0 / 1 / 4 x 3 client scripts with idle points"""
+    import itertools
+    conts = ['Rt', 'Rd', 'Kt', 'St', 'Ks', 'Cn', 'C3001']
+    for (ktok, var) in (('Kt', 0), ('Kt', 1), ('Kd', 1), ('Km', 0)):
+        for l in range(0, 3):
+            for toks in itertools.product(conts, repeat=l):
+                if toks.count('Ks') > 1: continue
+                for inbox in (['w', 't0', 't1', 'dn'], ['t0', 'w', 't1', 'w', 'b', 'd1001'], ['w', 'd4000']):
+                    for q in (0, 1, 4):
+                        script = [('A000', 0)] + [(ktok, var)] + [(t, (var + j) % 2) for j, t in enumerate(toks)]
+                        yield {'ver': '2.3' if q else '2.1', 'q': q, 'first': 1, 'route': 'r', 'mwreq': [], 'mwres': [], 'mw_present': False,
+                               'script': [{'tok': t, 'catch': 1, 'var': v, 'pay': default_pay(j)} for j, (t, v) in enumerate(script)],
+                               'custom': None, 'inbox': list(inbox), 'events': [default_event(t, k) for k, t in enumerate(inbox)], 'wp_only': False,
+                               'starve': 'late', 'fail': None, 'fault': 'other', 'err': 1011, 'binh': False, 'yields': 777 + l + q}
+
+
 def gen_exhaustive(maxlen):
     """every script of length <= maxlen over SMALL_OPS (all steps catch, except the foreign error E, which propagates) x 3 client scripts x fault index x queue 0/4."""
     import itertools
@@ -327,6 +540,11 @@ def run(ctx):
     class Boom(Exception):
         pass
 
+    class Abandoned(Exception):
+        """harness: the operation was parked and the responder gave it up (timeout / cancellation); the responder goes on"""
+
+    vclock = [1000.0]        # the event loop's clock: virtual, advanced only by the harness (asyncio.wait_for timeouts fire when the harness says so)
+
     class BinHandler(media.BinaryBaseHandlerWS):
         """msgpack-like stub (msgpack is not installed): magic 00 4A + the UTF-8 JSON text; deserialize is its inverse"""
         def serialize(self, m):
@@ -348,6 +566,7 @@ def run(ctx):
         if isinstance(e, OSError): return 'OSE'
         if isinstance(e, AssertionError): return 'AE'
         if isinstance(e, Boom): return 'BOOM'
+        if isinstance(e, Abandoned): return 'CAN'
         if isinstance(e, asyncio.TimeoutError): return 'TIMEOUT'
         return 'PY'
     CATCH = (errors.OperationNotAllowed, errors.WebSocketDisconnected, errors.PayloadTypeError, ValueError)
@@ -363,7 +582,7 @@ def run(ctx):
     def render(m):
         ty = m.get('type')
         if ty == 'websocket.accept':
-            return 'acc%d%d' % (1 if m.get('headers') else 0, 1 if m.get('subprotocol') is not None else 0)
+            return 'acc%d%d' % (1 if 'headers' in m else 0, 1 if m.get('subprotocol') is not None else 0)
         if ty == 'websocket.send':
             return 'snd:t' if m.get('text') is not None else 'snd:b'
         if ty == 'websocket.close':
@@ -393,14 +612,27 @@ def run(ctx):
     # ---------------------------------------------------------------- one real session
     async def session(spec):
         yr = random.Random(spec['yields'])
-        o = {'calls': [], 'trace': [], 'steps': [], 'handed': None, 'out_n': 0, 'ws': None}
+        o = {'calls': [], 'trace': [], 'steps': [], 'handed': None, 'out_n': 0, 'ws': None, 'cur': None, 'turn': 0, 'park_send': None}
         events = [dict(e) for e in spec['events']]
         ev = [{'type': 'websocket.connect'} if spec['first'] else {'type': 'websocket.disconnect', 'code': 1001}] + list(events)
         never = asyncio.get_running_loop().create_future()
 
+        def gate_open():
+            cur = o['cur']
+            return cur is not None and cur['tok'] in ('Rt', 'Rd', 'Rm') and o['turn'] - cur['t0'] >= G_WAIT and not cur.get('resumed')
+
         async def receive():
             for _ in range(yr.choice([0, 1, 1, 2, 3])):
                 await asyncio.sleep(0)
+            while ev and ev[0]['type'] == 'idle':
+                # the client is idle: nothing arrives until the responder has really been waiting in a plain receive_* (a cancelled pull takes nothing)
+                if gate_open():
+                    o['cur']['resumed'] = True       # one waiting receive wakes the client once: a later idle point needs a new wait
+                    while ev and ev[0]['type'] == 'idle':
+                        ev.pop(0)
+                    o['trace'].append(('client-resumes',))
+                else:
+                    await asyncio.sleep(0)
             if ev:
                 e = ev.pop(0)
                 if e['type'] == 'websocket.disconnect' and spec['first']:
@@ -417,6 +649,10 @@ def run(ctx):
             o['calls'].append(call)
             for _ in range(yr.choice([0, 0, 1, 2])):
                 await asyncio.sleep(0)
+            if o['park_send'] is not None and m.get('type') == 'websocket.send':
+                # the server has not taken the event yet (back-pressure): the call stays in flight until the responder cancels it
+                call['ok'] = False; call['cancelled'] = True; o['park_send']['in_flight'] = True
+                await asyncio.get_running_loop().create_future()
             if spec['fail'] is not None and i == spec['fail']:
                 call['ok'] = False
                 raise mkfault(spec['fault'])
@@ -428,7 +664,26 @@ def run(ctx):
 
         async def do(ws, st, rec):
             tok = st['tok']; k = tok[0]; var = st['var']
-            if k == 'A':
+            if tok == 'Ag':
+                acc = st['acc']; kw = {}
+                if acc['sub'] is not None: kw['subprotocol'] = acc['sub']
+                if acc['container'] is not None: kw['headers'] = build_headers(acc)
+                if kw and var % 2 == 0 and 'headers' not in kw: await ws.accept(kw['subprotocol'])      # positional
+                else: await ws.accept(**kw)
+            elif k == 'K':
+                kind = tok[1]
+                if kind in 'tdm':
+                    rec['value'] = await abandon({'t': ws.receive_text, 'd': ws.receive_data, 'm': ws.receive_media}[kind], var, rec)
+                else:
+                    pay = st['pay']; o['park_send'] = rec
+                    try:
+                        if kind == 's':
+                            rec['submitted'] = ('text', pay['text']); await abandon(lambda: ws.send_text(pay['text']), var, rec)
+                        else:
+                            rec['submitted'] = ('bytes', pay['data']); await abandon(lambda: ws.send_data(pay['data']), var, rec)
+                    finally:
+                        o['park_send'] = None
+            elif k == 'A':
                 kw = {}
                 if tok[1] == '1': kw['headers'] = {'X-Case': 'v'} if var % 2 else [('X-Case', 'v'), ('x-other', 'w')]
                 if tok[3] == '1': kw['subprotocol'] = 7
@@ -472,6 +727,43 @@ def run(ctx):
                 if rec['via'] == 'peer': await peer_fails(tok[1:])
                 else: raise_by_hand(tok[1:], var)
                 raise RuntimeError('harness: the foreign operation did not raise')
+
+        async def abandon(call, var, rec):
+            """run the operation the way a responder that may give it up does: under asyncio.wait_for(op, 5.0) (even var) or as a task of its own (odd var).
+            If it has not completed after T_PARK loop turns it is parked - an available event reaches a receive within < 10 turns -: the timeout fires
+            (the harness advances the loop's virtual clock) resp. the task is cancelled, and the responder goes on (Abandoned).  Otherwise the operation's
+            own result / exception is the step's."""
+            ws_ = o['ws']
+
+            async def started():
+                # the operation begins one loop turn after the step: what it can observe is sampled now
+                rec['disc'] = flag(ws_); rec['handed'] = o['handed']; rec['c0'] = len(o['calls'])
+                return await call()
+            if var % 2 == 0:
+                rec['how'] = 'wait_for'; t = asyncio.ensure_future(asyncio.wait_for(started(), 5.0))
+            else:
+                rec['how'] = 'cancel'; t = asyncio.ensure_future(started())
+            for _ in range(T_PARK):
+                if t.done(): break
+                await asyncio.sleep(0)
+            if not t.done():
+                rec['parked'] = True
+                if var % 2 == 0: vclock[0] += 10.0
+                else: t.cancel()
+                for _ in range(20):
+                    if t.done(): break
+                    await asyncio.sleep(0)
+            if not t.done():
+                t.cancel()
+                raise RuntimeError('harness: the abandoned operation did not finish after its cancellation')
+            if t.cancelled():
+                raise Abandoned()
+            exc = t.exception()
+            if exc is None:
+                return t.result()
+            if rec.get('parked') and isinstance(exc, asyncio.TimeoutError):
+                raise Abandoned()
+            raise exc
 
         class LeftWSD(errors.WebSocketDisconnected):
             """an application's own subclass"""
@@ -525,15 +817,20 @@ def run(ctx):
                 for _ in range(yr.choice([0, 0, 0, 1, 2, 5])):      # the application does other work: the pump may run
                     await asyncio.sleep(0)
                 rec = {'who': who, 'tok': st['tok'], 'catch': st['catch'], 'disc': flag(ws), 'handed': o['handed'], 'c0': len(o['calls']),
-                       'outcome': None}
+                       'outcome': None, 'acc': st.get('acc'), 't0': o['turn']}
                 o['steps'].append(rec)
+                o['cur'] = rec
                 try:
                     await do(ws, st, rec)
                     rec['outcome'] = 'ok'; rec['c1'] = len(o['calls'])
                 except Exception as e:  # noqa
                     rec['outcome'] = exname(e); rec['c1'] = len(o['calls'])
+                    if isinstance(e, Abandoned):
+                        continue            # the responder gave the operation up and goes on
                     if not (st['catch'] == 2 or (st['catch'] == 1 and isinstance(e, CATCH))):
                         raise
+                finally:
+                    o['cur'] = None
 
         class Res:
             async def on_websocket(self, req, ws):
@@ -594,6 +891,7 @@ def run(ctx):
                 if task.done():
                     break
                 await asyncio.sleep(0)
+                o['turn'] += 1
             if not task.done():
                 esc = 'TIMEOUT'
                 task.cancel()
@@ -622,20 +920,48 @@ def run(ctx):
         return o
 
     # ---------------------------------------------------------------- driver line + expected reply
+    def drv_tok(st, rec):
+        """the step as the kind-level model sees it.  accept with generated arguments: the arguments themselves.  A receive the responder abandons
+        if it has to wait: the run decides (like the disconnect flag, an observation) whether it was parked and cancelled (K?: a no-op of the model)
+        or found an event (a plain receive).  A send cancelled in flight: a send whose server call raises an untranslated exception that the script
+        catches (`fail=<index of the call> fault=other`, catch-all) - _send only handles Exception, so both leave the socket as it was."""
+        tok = st['tok']
+        if tok == 'Ag': return acc_tok(st['acc'])
+        if tok[0] == 'K':
+            if tok[1] in 'tdm': return tok if (rec is not None and rec['outcome'] == 'CAN') else 'R' + tok[1]
+            return 'St' if tok[1] == 's' else 'Sb'
+        return tok
+
+    def drv_catch(st, rec):
+        return 2 if (st['tok'] in ('Ks', 'Kb') and rec is not None and rec['outcome'] == 'CAN') else st['catch']
+
+    def model_outcome(r):
+        if r['outcome'] == 'CAN': return 'PY' if r['tok'] in ('Ks', 'Kb') else 'ok'
+        return r['outcome']
+
+    def fail_fault(spec, o):
+        """the failing server send of the model: the injected fault, or the send the responder cancelled in flight"""
+        can = [c['i'] for c in o['calls'] if c.get('cancelled')]
+        if can and spec['fail'] is None and len(can) == 1: return str(can[0]), 'other'
+        if can: return 'unmodelled', 'other'
+        return ('-' if spec['fail'] is None else str(spec['fail'])), spec['fault']
+
     def tokens(steps, recs):
         out = []
         for i, st in enumerate(steps):
-            d = recs[i]['disc'] if i < len(recs) else None
-            out.append(f"{st['tok']}:{st['catch']}:{'-' if d is None else d}")
+            rec = recs[i] if i < len(recs) else None
+            d = rec['disc'] if rec is not None else None
+            out.append(f"{drv_tok(st, rec)}:{drv_catch(st, rec)}:{'-' if d is None else d}")
         return ';'.join(out)
 
     def line_and_reply(spec, o):
         by = {w: [r for r in o['steps'] if r['who'] == w] for w in ('mwreq', 'mwres', 'responder', 'handler')}
         ver = tuple(map(int, spec['ver'].split('.')))
-        inbox = list(spec['inbox'])
+        inbox = [t for t in spec['inbox'] if t != 'w']       # an idle client is no event: the model reads the messages in order
         cu = spec['custom']
+        fail, fault = fail_fault(spec, o)
         line = (f"case supH={0 if spec['ver'] == '2.0' else 1} supR={1 if ver >= (2, 3) else 0} err={spec['err']} bin={1 if spec['binh'] else 0} "
-                f"fail={'-' if spec['fail'] is None else spec['fail']} fault={spec['fault']} q={1 if spec['q'] else 0} first={spec['first']} "
+                f"fail={fail} fault={fault} q={1 if spec['q'] else 0} first={spec['first']} "
                 f"route={spec['route']} inbox={','.join(inbox)} reasons={','.join(map(str, o['reasons']))} "
                 f"mwreq={tokens(spec['mwreq'], by['mwreq'])} mwres={tokens(spec['mwres'], by['mwres'])} "
                 f"script={tokens(spec['script'], by['responder'])} custom={'none' if cu is None else 'h:' + tokens(cu['steps'], by['handler'])} "
@@ -643,8 +969,8 @@ def run(ctx):
         sent = ','.join(c['r'] + ('' if c['ok'] else '!') for c in o['calls'])
         if not spec['first']:
             return line, f"sent={sent} log= hlog= esc={o['esc']} pub=-"
-        log = ','.join(r['outcome'] for r in o['steps'] if r['who'] != 'handler')
-        hlog = ','.join(r['outcome'] for r in by['handler'])
+        log = ','.join(model_outcome(r) for r in o['steps'] if r['who'] != 'handler')
+        hlog = ','.join(model_outcome(r) for r in by['handler'])
         return line, f"sent={sent} log={log} hlog={hlog} esc={o['esc']} pub={o['pub']}"
 
     def key_tok(ev, k, text):
@@ -667,28 +993,33 @@ def run(ctx):
         if tok == 'Sb': return 'Smb' + doc_tok(pay['doc']) if var % 2 and spec['binh'] else 'Sb' + hx(pay['data'])
         if tok == 'Sx': return 'Smt!' if var % 2 else 'Smb!'
         if tok == 'Sn': return 'Smb' + doc_tok(pay['doc'])
+        if tok == 'Ks': return 'St' + hx(pay['text'].encode('utf-8'))
+        if tok == 'Kb': return 'Sb' + hx(pay['data'])
         return tok
 
     def tokens_wp(spec, steps, recs):
         out = []
         for i, st in enumerate(steps):
-            d = recs[i]['disc'] if i < len(recs) else None
-            out.append(f"{op_tok(spec, st)}:{st['catch']}:{'-' if d is None else d}")
+            rec = recs[i] if i < len(recs) else None
+            d = rec['disc'] if rec is not None else None
+            t = drv_tok(st, rec) if (st['tok'] == 'Ag' or st['tok'] in ('Kt', 'Kd', 'Km')) else op_tok(spec, st)
+            out.append(f"{t}:{drv_catch(st, rec)}:{'-' if d is None else d}")
         return ';'.join(out)
 
     def outcome_wp(r):
-        if r['outcome'] == 'ok' and r['tok'] in ('Rt', 'Rd', 'Rm'):
-            return render_value(r['tok'], r.get('value'))
-        return r['outcome']
+        if r['outcome'] == 'ok' and r['tok'] in ('Rt', 'Rd', 'Rm', 'Kt', 'Kd', 'Km'):
+            return render_value('R' + r['tok'][1], r.get('value'))
+        return model_outcome(r)
 
     def line_and_reply_wp(spec, o):
         """the same session for the payload-carrying model: payloads in the line, payloads in the reply"""
         by = {w: [r for r in o['steps'] if r['who'] == w] for w in ('mwreq', 'mwres', 'responder', 'handler')}
         ver = tuple(map(int, spec['ver'].split('.')))
         cu = spec['custom']
+        fail, fault = fail_fault(spec, o)
         line = (f"case supH={0 if spec['ver'] == '2.0' else 1} supR={1 if ver >= (2, 3) else 0} err={spec['err']} bin={1 if spec['binh'] else 0} "
-                f"fail={'-' if spec['fail'] is None else spec['fail']} fault={spec['fault']} q={1 if spec['q'] else 0} first={spec['first']} "
-                f"route={spec['route']} inbox={','.join(in_tok(e) for e in spec['events'])} reasons={','.join(map(str, o['reasons']))} "
+                f"fail={fail} fault={fault} q={1 if spec['q'] else 0} first={spec['first']} "
+                f"route={spec['route']} inbox={','.join(in_tok(e) for e in spec['events'] if e['type'] != 'idle')} reasons={','.join(map(str, o['reasons']))} "
                 f"mwreq={tokens_wp(spec, spec['mwreq'], by['mwreq'])} mwres={tokens_wp(spec, spec['mwres'], by['mwres'])} "
                 f"script={tokens_wp(spec, spec['script'], by['responder'])} custom={'none' if cu is None else 'h:' + tokens_wp(spec, cu['steps'], by['handler'])} "
                 f"fd={'-' if o['fd'] is None else o['fd']}")
@@ -714,7 +1045,8 @@ def run(ctx):
             if st == 'done':
                 return f"send call #{c['i']} ({c['r']}) after a close event had been accepted by the server"
             if ty == 'websocket.accept':
-                if c['m'].get('headers') and ver < (2, 1): return 'accept headers sent to a spec-2.0 server'
+                ill = accept_event_illegal(c['m'], ver)
+                if ill: return f"accept event {c['m']!r} is not legal per the ASGI spec: {ill}"
                 if st != 'connecting': return f'second accept (state {st})'
                 if c['ok']: st = 'open'
             elif ty == 'websocket.send':
@@ -763,9 +1095,40 @@ def run(ctx):
                 if len(calls) != 1 or calls[0]['m'].get('type') != kind:
                     return f"{where}: expected exactly one {kind} event, the server saw {[c['r'] for c in calls]}", False
                 return None, calls[0]['ok']
+            abandon = False
+            if k == 'K':
+                # an operation the responder gives up if it has to wait: judged as the operation it is, plus the abandoned outcome
+                abandon = True; tok = ('R' + tok[1]) if tok[1] in 'tdm' else ('St' if tok[1] == 's' else 'Sb'); k = tok[0]
+                if out == 'CAN' and not r.get('parked'): return f'{where}: harness error (abandoned without having been parked)'
             if k in 'HTXBE':
                 want = foreign_want(tok) if k == 'E' else {'H': 'HE:' + tok[1:], 'T': 'HS:' + tok[1:], 'X': 'PY', 'B': 'BOOM'}[k]
                 if out != want or calls: return f'{where}: harness error (the scripted raise gave {out}, wanted {want}; events {[c["r"] for c in calls]})'
+                continue
+            if tok == 'Ag':
+                acc = r['acc']; shown = dict(acc, headers=('(generator)' if acc['container'] == 'gen' else build_headers(acc)))
+                where += f' accept(subprotocol={acc["sub"]!r}, headers={shown["headers"]!r}) [{acc["container"]}]'
+                if st == 'closed' or lostq or st == 'accepted': want, exp_ev = 'ONA', None
+                else: want, exp_ev = accept_expectation(acc, ver)
+                if want == 'ok':
+                    err, ok = one_call('websocket.accept')
+                    if err: return err
+                    m = calls[0]['m']
+                    got_ev = dict(m)
+                    if 'headers' in got_ev:
+                        try: got_ev['headers'] = [tuple(h) for h in got_ev['headers']]
+                        except TypeError: pass
+                    if got_ev != exp_ev: return f'{where}: the accept event is {m!r}, the arguments ask for {exp_ev!r}'
+                    if ok: want = 'ok'; st = 'accepted'
+                    else:
+                        want, closed, c = fault_outcome(spec, False)
+                        if closed: st = 'closed'; code = c
+                    if out != want: return f'{where}: got {out}, the documented outcome is {want}'
+                    continue
+                if calls: return f'{where}: the call must raise ({want}) and send nothing, yet the server saw {[c["m"] for c in calls]}'
+                if want == 'RAISES':
+                    if out == 'ok': return f'{where}: arguments outside the documented types were accepted silently (nothing sent, no exception)'
+                elif out != want:
+                    return f'{where}: got {out}, the documented outcome is {want} and nothing sent'
                 continue
             if k == 'A':
                 if st == 'closed' or lostq or st == 'accepted': want = 'ONA'
@@ -803,7 +1166,11 @@ def run(ctx):
                             (kind == 'binmedia' and type(m.get('bytes')) is bytes and m['bytes'][:2] == b'\x00J' and json.loads(m['bytes'][2:].decode('utf-8')) == val
                              and m.get('text') is None))
                     if not good: return f'{where}: payload {val!r} ({kind}) reached the server as {m!r}'
-                    if ok: want = 'ok'
+                    if abandon:
+                        # the server had not taken the event when the responder cancelled the call: nothing was delivered, the socket is as it was
+                        if not calls[0].get('cancelled'): return f'{where}: harness error (the send to be cancelled was not held by the server)'
+                        want = 'CAN'
+                    elif ok: want = 'ok'
                     else:
                         want, closed, c = fault_outcome(spec, False)
                         if closed: st = 'closed'; code = c
@@ -822,8 +1189,16 @@ def run(ctx):
                 elif pump_stopped_send and out == 'AE':
                     finding3 = f'{where}'
                     continue
-                elif nxt >= len(inbox): want = 'PY'      # the server's receive raised (queue 0 only)
+                elif abandon and nxt < len(inbox) and inbox[nxt]['type'] == 'idle':
+                    # nothing to receive and the client stays idle: the receive waits, the responder gives it up; nothing is consumed, nothing changes
+                    want = 'CAN'
                 else:
+                    while nxt < len(inbox) and inbox[nxt]['type'] == 'idle':
+                        nxt += 1           # a plain receive waits; the idle client resumes
+                    if nxt >= len(inbox):
+                        want = 'PY'      # the server's receive raised (queue 0 only)
+                        if out != want: return f'{where}: got {out}, the documented outcome is {want}'
+                        continue
                     ev = inbox[nxt]; nxt += 1
                     if ev['type'] == 'websocket.disconnect':
                         c = ev.get('code', 1000); want = f'WSD:{c}'; st = 'closed'; code = c
@@ -907,6 +1282,7 @@ def run(ctx):
         raised = None
 
         def caught(r):
+            if r['outcome'] == 'CAN': return True      # the responder gave the operation up and went on
             return r['catch'] == 2 or (r['catch'] == 1 and r['outcome'].split(':')[0] in ('ONA', 'WSD', 'PTE', 'VEI', 'VEO'))
         if scripted and last != 'ok' and not caught(scripted[-1]):
             raised = last
@@ -979,12 +1355,17 @@ def run(ctx):
             sess.case({'spec': {k: v for k, v in spec.items() if k != 'yields'}, 'origin': origin})
             sess.op(line, reply)
         case = {k: spec[k] for k in ('ver', 'q', 'first', 'route', 'inbox', 'events', 'starve', 'fail', 'fault', 'err', 'binh', 'mw_present', 'yields')}
-        case['script'] = [(s['tok'], s['catch'], s['var'], s['pay']) for s in spec['script']]
-        case['mwreq'] = [(s['tok'], s['catch'], s['var'], s['pay']) for s in spec['mwreq']]
-        case['mwres'] = [(s['tok'], s['catch'], s['var'], s['pay']) for s in spec['mwres']]
+        def shown(s):
+            base = (s['tok'], s['catch'], s['var'], s['pay'])
+            if s['tok'] == 'Ag': return ('Ag', s['catch'], s['var'], {'subprotocol': s['acc']['sub'], 'headers_container': s['acc']['container'], 'header_items': s['acc']['items']})
+            return base
+        case['script'] = [shown(s) for s in spec['script']]
+        case['mwreq'] = [shown(s) for s in spec['mwreq']]
+        case['mwres'] = [shown(s) for s in spec['mwres']]
         case['custom'] = None if spec['custom'] is None else {'ws': spec['custom']['ws'], 'steps': [(x['tok'], x['catch'], x['pay']) for x in spec['custom']['steps']]}
         seen = {'server_saw': [render_wp(c['m']) + ('' if c['ok'] else '!') for c in o['calls']],
-                'ops': [(r['who'], r['tok'], outcome_wp(r)) for r in o['steps']], 'escaped': o['esc']}
+                'ops': [(r['who'], r['tok'], (r['outcome'] + (' (parked, then %s)' % ('asyncio.wait_for timeout' if r.get('how') == 'wait_for' else 'task.cancel()'))) if r['outcome'] == 'CAN' else outcome_wp(r))
+                        for r in o['steps']], 'escaped': o['esc']}
         bad = oracle_monitor(spec, o)
         ctx.oracle('events sent to the server form a legal ASGI session (<=1 accept, data only while open, <=1 close, nothing after close/loss, reason/headers only if supported)',
                    bad is None, bad, dict(case, observed=seen))
@@ -1019,6 +1400,17 @@ def run(ctx):
         if o['left']: ctx.count('pump_left_running_by_custom_error_handler_without_close')
         for r in o['steps']:
             ctx.count('outcome_' + r['outcome'].split(':')[0])
+            if r['outcome'] == 'CAN':
+                ctx.count('abandoned_%s_%s_q%d' % ('receive' if r['tok'][1] in 'tdm' else 'send_in_flight', r.get('how'), spec['q']))
+            elif r['tok'][0] == 'K' and r['tok'][1] in 'tdm' and r['outcome'].startswith('ok'):
+                ctx.count('abandonable_receive_found_a_message')
+            if r['tok'] == 'Ag':
+                a = r['acc']
+                ctx.count('accept_args_headers_' + str(a['container']))
+                if any(isinstance(it, tuple) and len(it) == 2 and isinstance(it[0], str) and it[0].lower() == FORBIDDEN and it[0] != FORBIDDEN for it in a['items']):
+                    ctx.count('accept_args_forbidden_header_in_mixed_case')
+                elif any(isinstance(it, tuple) and len(it) == 2 and it[0] == FORBIDDEN for it in a['items']):
+                    ctx.count('accept_args_forbidden_header_lower_case')
             if r['tok'][0] == 'E':
                 ctx.count('foreign_error_' + r['tok'][1:4] + '_' + r.get('via', '?') + ('_in_' + r['who'] if r['who'] != 'responder' else ''))
         fe = [r for r in o['steps'] if r['tok'][0] == 'E' and r['who'] != 'handler' and r['catch'] == 0]
@@ -1026,13 +1418,113 @@ def run(ctx):
             ctx.count('foreign_error_escaped_while_client_connected_' + o['o_state'][0])
         ctx.count('esc_' + o['esc'].split(':')[0])
 
-    async def main():
+    # ---------------------------------------------------------------- accept() arguments on directly constructed sockets = Wa model
+    sess_wa = ctx.session('WebSocket.accept(subprotocol, headers): outcome and the exact accept event = Wa model (accept)', 'wadriver')
+    ORA_ACC = ('accept() arguments: the accept event is legal per the ASGI spec (lower-case byte header names, never sec-websocket-protocol, headers only from spec 2.1) '
+               'and carries exactly the given headers / subprotocol, or the documented error is raised and nothing is sent')
+
+    async def accept_call(ver, state, fail, acc, origin):
+        sent = []
+
+        async def rcv():
+            raise RuntimeError('harness: accept() must not receive')
+
+        armed = [None]
+
+        async def snd(m):
+            sent.append(dict(m))
+            if fail and armed[0] is not None and len(sent) == armed[0] + 1: raise RuntimeError('server send exploded')
+        ws = wsmod.WebSocket(ver, {'subprotocols': ['chat', 'other']}, rcv, snd, wsmod.WebSocketOptions().media_handlers, 0, {})
+        if state == 'a': await ws.accept()
+        elif state == 'c': await ws.close()
+        n0 = armed[0] = len(sent)
+        kw = {}
+        if acc['sub'] is not None: kw['subprotocol'] = acc['sub']
+        if acc['container'] is not None: kw['headers'] = build_headers(acc)
+        try:
+            await ws.accept(**kw); out = 'ok'
+        except Exception as e:  # noqa
+            out = exname(e)
+        new = sent[n0:]
+        v = tuple(map(int, ver.split('.')))
+
+        def hb(b):
+            return '-' if not b else '.'.join('%x' % x for x in b)
+        if not new: evs = '-'
+        else:
+            m = new[0]; hs = m.get('headers')
+            try:
+                htxt = '-' if 'headers' not in m else ('=' if not hs else '_'.join(hb(a) + '/' + hb(b) for a, b in hs))
+            except Exception:  # noqa
+                htxt = '?' + repr(hs).replace(' ', '')
+            evs = 'acc:%d:%s' % (1 if m.get('subprotocol') is not None else 0, htxt) + ('' if len(new) == 1 and m.get('type') == 'websocket.accept' else '?%d' % len(new))
+        sess_wa.case({'spec_version': ver, 'state': state, 'server_send_fails': fail, 'subprotocol': acc['sub'], 'headers_container': acc['container'], 'header_items': acc['items']})
+        sess_wa.op(f"acc supH={0 if ver == '2.0' else 1} st={state} disc=- fail={1 if fail else 0} tok={acc_tok(acc)[1:]}", f'{out} {evs}')
+        # the statement, independently
+        bad = None
+        for m in new:
+            ill = accept_event_illegal(m, v) if m.get('type') == 'websocket.accept' else f'event {m!r} sent by accept()'
+            if ill: bad = bad or f'the server was handed {m!r}: {ill}'
+        if not bad:
+            if state != 'h': want, exp_ev = 'ONA', None
+            else: want, exp_ev = accept_expectation(acc, v)
+            if want == 'ok':
+                got = [dict(m, headers=[tuple(h) for h in m['headers']]) if 'headers' in m else m for m in new]
+                if got != [exp_ev]: bad = f'the server was handed {new!r}, the arguments ask for exactly {exp_ev!r}'
+                elif out != ('PY' if fail else 'ok'): bad = f'got {out}, expected {"the server error" if fail else "a normal return"}'
+                elif not fail and not ws.ready: bad = 'accept() returned but the socket is not ready'
+            else:
+                if new: bad = f'the call must raise ({want}) and send nothing, yet the server was handed {new!r}'
+                elif want == 'RAISES':
+                    if out == 'ok': bad = 'arguments outside the documented types were accepted silently'
+                elif out != want: bad = f'got {out}, the documented outcome is {want}'
+                if not bad and state == 'h' and not ws.unaccepted: bad = 'the refused accept() changed the state of the socket'
+        shown = {'spec_version': ver, 'state': {'h': 'handshake', 'a': 'accepted', 'c': 'closed'}[state], 'server_send_fails': fail,
+                 'accept': {'subprotocol': acc['sub'], 'headers_container': acc['container'], 'header_items': acc['items']}, 'outcome': out, 'server_saw': new}
+        ctx.oracle(ORA_ACC, bad is None, bad, shown)
+        ctx.seen(('acc', ver, state, fail, acc_tok(acc), acc['container']), bool(new))
+        ctx.count('accept_call_' + origin); ctx.count('accept_call_outcome_' + out.split(':')[0])
+
+    async def accept_calls():
         rnd = ctx.rng
+        i, k = ctx.shard
+        if i == 0:
+            # the table fact the Wa model rests on: U+212A is the only non-ASCII code point whose str.lower() is pure ASCII
+            odd = [c for c in range(0x80, 0x110000) if c != 0x212A and chr(c).lower().isascii()]
+            sess_wa.case({'table': 'non-ASCII code points whose str.lower() is ASCII, other than U+212A'})
+            sess_wa.op('acc supH=1 st=h disc=- fail=0 tok=gn~Lps212a/s', 'ok acc:0:6b/-' if not odd else 'str.lower table differs: %r' % odd[:5])
+        # directed: the forbidden name in every single-letter spelling, lower, UPPER, Canonical x container x subprotocol x spec version
+        base = FORBIDDEN
+        spellings = [base, base.upper(), 'Sec-WebSocket-Protocol', 'Sec-Websocket-Protocol'] + [base[:j] + base[j].upper() + base[j + 1:] for j in range(len(base)) if base[j].isalpha()]
+        spellings += [n for n in NEAR_MISS] + [n.upper() for n in NEAR_MISS[:6]]
+        j = 0
+        for name in spellings:
+            for container in ('list', 'tuple', 'lists', 'dict', 'gen'):
+                for sub in (None, 'chat'):
+                    for ver in ('2.0', '2.1', '2.2', '2.3', '2.4'):
+                        for pos in (0, 1):
+                            j += 1
+                            if j % k != i: continue
+                            items = [(name, 'chat')] if pos == 0 else [('X-First', '1'), (name, 'chat')]
+                            await accept_call(ver, 'h', False, {'sub': sub, 'container': container, 'items': items}, 'directed')
+        for _ in range(ctx.n(6000, 60000)):
+            await accept_call(rnd.choice(['2.0', '2.1', '2.1', '2.2', '2.3', '2.4']), rnd.choice(['h'] * 8 + ['a', 'c']), rnd.random() < 0.08, gen_accept_args(rnd), 'random')
+
+    async def main():
+        loop = asyncio.get_running_loop()
+        loop.time = lambda: vclock[0]          # virtual time: nothing in this check may depend on the wall clock
+        rnd = ctx.rng
+        await accept_calls()
         for _ in range(ctx.n(8000, 60000)):
             await one(gen_random(rnd), 'random')
         for _ in range(ctx.n(3000, 24000)):
             await one(gen_payload_session(rnd), 'payload')
+        for _ in range(ctx.n(3000, 24000)):
+            await one(gen_abandon_session(rnd), 'abandon')
         i, k = ctx.shard
+        for j, spec in enumerate(gen_abandon_directed()):
+            if j % k == i:
+                await one(spec, 'abandon_directed')
         maxlen = 2 if ctx.quick else 3
         for j, spec in enumerate(gen_exhaustive(maxlen)):
             if j % k == i:
@@ -1040,6 +1532,7 @@ def run(ctx):
     asyncio.run(main())
     sess.finish()
     sess_wp.finish()
+    sess_wa.finish()
 
 
 LEVEL_TEXT = ('Machine-checked proofs (Lean 4) over an executable model that transcribes falcon/asgi/ws.py (accept/close/send_*/receive_*, _send with the server-error '
@@ -1056,7 +1549,13 @@ LEVEL_TEXT = ('Machine-checked proofs (Lean 4) over an executable model that tra
               'received_payloads_in_order_unchanged (and its composition with C18 for the buffered receiver), wrong_payload_type_errors_exact, media_roundtrip (instantiated with the '
               'C12 JSON model), and project_to_Ws, the refinement that maps every Wp session to the Ws session of its kinds, so the 57 kind-level theorems describe the same sessions. '
               'Wp is tied to the real App by a second correspondence on the same sessions comparing the hex of every payload handed to the server (with its key) and of every value '
-              'returned by receive_* (media: the JSON text of the document).')
+              'returned by receive_* (media: the JSON text of the document). '
+              'The ARGUMENTS of accept() are modelled in Wa (WsAccept.lean: the headers argument as None / a list-like / a generator of items that are pairs of str, bytes or other objects or no pairs, str.lower() incl. the KELVIN SIGN, '
+              '.encode(\'ascii\'), the comprehension-then-check order): accept_event_legal proves that whatever is handed to the server has lower-case ASCII byte names, never sec-websocket-protocol, exactly the given items in order, and only for a '
+              'server with accept headers; every_spelling_rejected / accept_forbidden_header_raises prove the documented ValueError for every one of the 2^20 letter-case spellings of the forbidden name; Wa.accept is by definition an operation of Ws '
+              '(the result of the argument processing is the hdrExc input of Ws.W.accept), and a third correspondence compares outcome and the exact accept event of calls on directly constructed sockets. '
+              'A receive_* that the responder abandons while it waits (asyncio.wait_for timeout, task cancellation) is the operation recvAbandoned of Ws / Wp: recvAbandoned_noop and abandoned_receive_session_continues prove that the session goes on '
+              'as if it had never been issued; the correspondence runs such responders (virtual loop clock, clients idle at marked points, queue 0 / 1 / 4) against the model, the oracle decides from the client script alone which receives must have waited.')
 LEVEL_NOTE = ('Trusted: Lean kernel + standard axioms; the scripted ASGI server, correspondence harness and oracles. The disconnect flag is a model input fed from the '
               'real object (its timing is C18). The media handlers are abstract in the theorems; the driver instantiates them with the C12 JSON model and the harness\' stub binary handler.')
 TECHNIQUE = 'Lean 4 invariant proof over an executable session model + differential correspondence model vs. real falcon.asgi.App + independent ASGI protocol monitor'
